@@ -41,7 +41,7 @@ Print Assumptions mime_tie.
    was confirmed on the real code, the model was at fault and was corrected (try_indices); the computed example is
    EquivStatic_proofs.index_over_long_raises. *)
 Theorem handle_tie : forall flt tok c f url,
-  norm_resp (gen_handle (model_lib flt tok) c f url) = resp_of_sout (handle c f url).
+  norm_resp (gen_handle (model_lib flt tok) c f url) = resp_of_sout url (handle c f url).
 Proof. exact EquivStatic_proofs.handle_tie. Qed.
 Print Assumptions handle_tie.
 
